@@ -10,7 +10,6 @@ from contextlib import suppress
 from functools import partial
 from importlib import import_module
 from inspect import _empty, getdoc, getsource, isfunction, signature
-from itertools import chain
 from operator import attrgetter, eq, itemgetter
 from types import FunctionType
 from typing import Optional
@@ -160,12 +159,10 @@ def _join_non_none(primacy, other):
         return other
     elif not other:
         return primacy
-    # & for `dict` keys is only available in newer Python versions
-    all_keys = frozenset(chain.from_iterable((primacy.keys(), other.keys())))
     primacy.update(
         {
             key: other[key]
-            for key in all_keys
+            for key in other
             if primacy.get(key) is None and other.get(key) is not None
         }
     )
